@@ -501,6 +501,10 @@ def _mode_table(ctx, P):
                         chunked = lazy and len(chunks[dx if ax == AX else dy]) > 1
                         rows.add((lazy, chunked, kw.get("dask"), kw.get("map_overlap")))
                         where = f"{cname}, axis {ax.name} of {[a.name for a in order]}: "
+                        if kw.get("dask") not in ("forbidden", "allowed", "parallelized"):
+                            bad = bad or where + f"the per-axis call is made with dask={kw.get('dask')!r}: xarray.apply_ufunc knows 'forbidden', 'allowed' and 'parallelized' only (it raises for anything else as soon as the input is dask-backed)"
+                        if kw.get("map_overlap") not in (True, False, None):
+                            bad = bad or where + f"the per-axis call is made with map_overlap={kw.get('map_overlap')!r}, which is not a truth value chosen by the dispatch"
                         if lazy and kw.get("dask") == "forbidden":
                             bad = bad or where + "a dask-backed input is applied with dask='forbidden' (xarray raises)"
                         if chunked and kw.get("dask") == "parallelized":
